@@ -711,6 +711,52 @@ def catalogue():
     return base
 
 
+def leaf_test_agreement(prog: Program, rep, rule: str):
+    """The leaf test of the graph walk / pass-through row of the dispatch tables (isunresolvable) is false for every
+    concrete class of the catalogue -- including the witness for "a class whose instances are callable" -- and true for
+    the documented unresolvable forms.  The predicate is interpreted from its source (PredEval)."""
+    pe = PredEval(prog)
+    pe.interpret_origin = True
+    f = prog.function(f"{INSP}.isunresolvable")
+    pred = ("ref", f.qualname)
+    wrong, undec, n = [], [], 0
+    leaves = [
+        TypeArg("typing.TypeVar", flags=frozenset({"instance"})),
+        TypeArg("builtins.type", True, ("builtins.int",)),
+        TypeArg("collections.abc.Callable", True, ("[]", "builtins.str")),
+        TypeArg("typing.Callable"),
+        TypeArg("typing.Any"),
+        TypeArg("builtins.object"),
+        TypeArg("builtins.Ellipsis"),
+    ]
+    for a in catalogue():
+        if a.flags or a.subscripted:
+            continue
+        v = pe.accepts(pred, a)
+        n += 1
+        if v is None or v == ("raises",):
+            undec.append(a.label())
+        elif pe.truthy(v):
+            wrong.append(f"{a.label()} is treated as unresolvable")
+    for a in leaves:
+        v = pe.accepts(pred, a)
+        n += 1
+        if v is None or v == ("raises",):
+            undec.append(a.label())
+        elif not pe.truthy(v):
+            wrong.append(f"{a.label()} is not treated as unresolvable")
+    if undec and not wrong:
+        rep.undecided(rule, f.qualname, f.loc, f"isunresolvable could not be evaluated on {undec[:4]}", detail="leaf-test")
+    else:
+        rep.check(
+            not wrong, rule, f.qualname, f.loc,
+            f"interpreted on {n} forms: no concrete class (incl. a class defining __call__) is a leaf; TypeVar, type[X], Callable forms, Any, object, Ellipsis are",
+            f"the leaf test disagrees with its contract: {'; '.join(wrong[:3])} -- such a type gets the pass-through routine and no member nodes (a structured class defining __call__ comes back as the raw input)",
+            detail="leaf-test",
+        )  # fmt: skip
+    return n
+
+
 def route(prog: Program, pe: PredEval, rows: list[Row], arg: TypeArg):
     """First row whose predicate definitely accepts `arg`; None when undecidable before a hit."""
     for r in rows:
